@@ -11,7 +11,7 @@ CONSTANTS
   PowOn = FALSE
   Families = {"auth"}
   RateCmds = {}
-  MaxHist = 4
+  MaxHist = 99
   CheckLemma = FALSE
   DevStopUnchecked = FALSE
   DevFetchOutUnchecked = TRUE
